@@ -40,6 +40,25 @@ type FlowControl interface {
 	Type() proxyv1alpha1.FlowControlSchemaType
 }
 
+// Pinner is implemented by stable wrappers whose underlying limiter can be
+// replaced while requests are in flight (schema type or strategy changes).
+type Pinner interface {
+	// Pin returns the limiter currently in force, or nil if there is none.
+	Pin() FlowControl
+}
+
+// Pin resolves a wrapper to the limiter currently behind it, so that a request
+// gives its slot back to the very limiter that admitted it and never to a
+// limiter that replaced it in the meantime.
+func Pin(fc FlowControl) FlowControl {
+	if p, ok := fc.(Pinner); ok {
+		if current := p.Pin(); current != nil {
+			return current
+		}
+	}
+	return fc
+}
+
 type MaxInflightFlowControl interface {
 	FlowControl
 	MaxInflight() int32
